@@ -23,6 +23,26 @@ pub fn inputs_c01(r: &mut Rng, n: usize, _tier: &str, out: &mut dyn Write) {
             }
         }
     }
+    // boundary block for Mul<i64>: factor pairs whose exact product is 2^63 or 2^64 ns (the i64 / u64 limits inside the
+    // implementation), one either side, all sign combinations (a seeded change wrong at exactly +2^63 was hit once)
+    if n >= 2000 {
+        for a in [0u32, 1, 20, 31, 32, 40, 62, 63] {
+            for tgt in [63u32, 64] {
+                if a > tgt || tgt - a > 62 {
+                    continue;
+                }
+                for dd in [-1i128, 0, 1] {
+                    for (sd, sq) in [(1i128, 1i64), (-1, 1), (1, -1), (-1, -1)] {
+                        let d = sd * ((1i128 << a) + dd);
+                        let q = sq * (1i64 << (tgt - a));
+                        writeln!(out, "muli {} {}", dstr(d), q).unwrap();
+                        writeln!(out, "imul {} {}", q, dstr(d)).unwrap();
+                        n -= 2;
+                    }
+                }
+            }
+        }
+    }
     for _ in 0..n {
         let a = total(r);
         match r.below(16) {
